@@ -480,8 +480,13 @@ func NewHTTPRequest(r model.ReqSpec, id string) *http.Request {
 	hr.Header.Set(ReqIDHeader, id)
 	if r.Body != "" {
 		hr.Body = io.NopCloser(strings.NewReader(r.Body))
-		hr.ContentLength = int64(len(r.Body))
-		hr.Header.Set("Content-Length", strconv.Itoa(len(r.Body)))
+		if r.Chunked {
+			hr.ContentLength = -1
+			hr.TransferEncoding = []string{"chunked"}
+		} else {
+			hr.ContentLength = int64(len(r.Body))
+			hr.Header.Set("Content-Length", strconv.Itoa(len(r.Body)))
+		}
 	} else {
 		hr.Body = http.NoBody
 		if r.ZeroCL {
